@@ -10,6 +10,7 @@ import (
 	"runtime"
 	"sync"
 	"sync/atomic"
+	"time"
 
 	"github.com/pinealctx/neptune/syncx/semap"
 	"pgregory.net/rapid"
@@ -51,6 +52,9 @@ type Config struct {
 	Keys    []KeySpec `json:"keys"`
 	// Defaults: build the container without options (rwRatio 10, 73 shards); RW and Shards then hold those values
 	Defaults bool `json:"defaults,omitempty"`
+	// Opts (sharded variants): "" = WithRwRatio then WithPrime; "reversed" = the other order; "ratio-only" (Shards is
+	// then the default 73); "prime-only" (RW is then the default ratio)
+	Opts string `json:"opts,omitempty"`
 }
 
 func (c Config) valid() bool {
@@ -63,6 +67,19 @@ func (c Config) valid() bool {
 			return false
 		}
 		seen[k.value()] = true
+	}
+	switch c.Opts {
+	case "", "reversed":
+	case "ratio-only":
+		if c.Shards != 73 {
+			return false
+		}
+	case "prime-only":
+		if c.RW != semap.DefaultRWRatio {
+			return false
+		}
+	default:
+		return false
 	}
 	return c.Variant == "single" || c.Variant == "wide" || c.Variant == "xwide"
 }
@@ -77,11 +94,20 @@ func (c Config) build() semap.SemMapper {
 		}
 		return semap.NewSemMap()
 	}
+	opts := []semap.Option{semap.WithRwRatio(c.RW), semap.WithPrime(c.Shards)}
+	switch c.Opts {
+	case "reversed":
+		opts = []semap.Option{semap.WithPrime(c.Shards), semap.WithRwRatio(c.RW)}
+	case "ratio-only":
+		opts = []semap.Option{semap.WithRwRatio(c.RW)}
+	case "prime-only":
+		opts = []semap.Option{semap.WithPrime(c.Shards)}
+	}
 	switch c.Variant {
 	case "wide":
-		return semap.NewWideSemMap(semap.WithRwRatio(c.RW), semap.WithPrime(c.Shards))
+		return semap.NewWideSemMap(opts...)
 	case "xwide":
-		return semap.NewWideXHashSemMap(semap.WithRwRatio(c.RW), semap.WithPrime(c.Shards))
+		return semap.NewWideXHashSemMap(opts...)
 	}
 	return semap.NewSemMap(semap.WithRwRatio(c.RW))
 }
@@ -94,6 +120,15 @@ func genConfig(t *rapid.T) Config {
 	}
 	if rapid.IntRange(0, 11).Draw(t, "defaults") == 0 {
 		c.Defaults, c.RW, c.Shards = true, semap.DefaultRWRatio, 73
+	} else if c.Variant != "single" {
+		switch rapid.IntRange(0, 7).Draw(t, "opts") {
+		case 0:
+			c.Opts = "reversed"
+		case 1:
+			c.Opts, c.Shards = "ratio-only", 73
+		case 2:
+			c.Opts, c.RW = "prime-only", semap.DefaultRWRatio
+		}
 	}
 	nk := rapid.SampledFrom([]int{1, 1, 2, 2, 3}).Draw(t, "nkeys")
 	base := rapid.Int64Range(-5, 50).Draw(t, "basekey")
@@ -170,6 +205,8 @@ type Step struct {
 	Write     bool   `json:"write,omitempty"`
 	Key       int    `json:"key,omitempty"`
 	PreCancel bool   `json:"pre_cancel,omitempty"` // acq with an already cancelled context
+	// Deadline (with PreCancel): the context is over because its deadline has passed (ctx.Err() is DeadlineExceeded)
+	Deadline bool `json:"deadline,omitempty"`
 }
 
 type CaseCtl struct {
@@ -271,6 +308,38 @@ func GenCtl(t *rapid.T) CaseCtl {
 	c := CaseCtl{Config: genConfig(t)}
 	m := newCtlModel(c.Config)
 	nsteps := rapid.IntRange(4, 30).Draw(t, "nsteps")
+	// one case in eight starts with a deep queue on key 0: a holder, (a writer at the head,) 5-29 (sometimes 33-130) readers queued, then
+	// ONE event - the holder's release or the head's cancellation - that has to admit everything that fits at once
+	if rapid.IntRange(0, 7).Draw(t, "deep") == 0 {
+		add := func(st Step) {
+			if st.Op == "acq" {
+				m.next++
+				m.acquire(st.Actor, st.Key, st.Write, false, c.RW)
+			}
+			c.Steps = append(c.Steps, st)
+		}
+		k := rapid.IntRange(5, 29).Draw(t, "deepreaders")
+		if rapid.IntRange(0, 3).Draw(t, "deeper") == 0 {
+			k = rapid.SampledFrom([]int{33, 40, 65, 70, 130}).Draw(t, "deeperreaders")
+		}
+		if rapid.Bool().Draw(t, "deepcancel") {
+			add(Step{Op: "acq", Actor: m.next})              // a reader holds
+			add(Step{Op: "acq", Actor: m.next, Write: true}) // a writer waits at the head
+			for i := 0; i < k; i++ {
+				add(Step{Op: "acq", Actor: m.next})
+			}
+			m.cancel(1)
+			c.Steps = append(c.Steps, Step{Op: "cancel", Actor: 1})
+		} else {
+			add(Step{Op: "acq", Actor: m.next, Write: true}) // a writer holds
+			for i := 0; i < k; i++ {
+				add(Step{Op: "acq", Actor: m.next})
+			}
+			m.release(0)
+			c.Steps = append(c.Steps, Step{Op: "rel", Actor: 0})
+		}
+		nsteps = rapid.IntRange(0, 8).Draw(t, "deepmore")
+	}
 	for i := 0; i < nsteps; i++ {
 		holders, waiters := m.actorsIn(stHolding), m.actorsIn(stWaiting)
 		// weights: acquire 5, release 4 (if any holder), cancel waiter 2 (if any), cancel other 1 (rare)
@@ -293,6 +362,7 @@ func GenCtl(t *rapid.T) CaseCtl {
 				Write:     rapid.IntRange(0, 9).Draw(t, "write") < 4,
 				Key:       rapid.IntRange(0, len(c.Keys)-1).Draw(t, "key"),
 				PreCancel: rapid.IntRange(0, 11).Draw(t, "pre") == 0}
+			st.Deadline = st.PreCancel && rapid.Bool().Draw(t, "deadline")
 			m.next++
 			m.acquire(st.Actor, st.Key, st.Write, st.PreCancel, c.RW)
 			c.Steps = append(c.Steps, st)
@@ -494,7 +564,10 @@ func ExecCtl(c CaseCtl) *vkit.Result {
 				res.Class("default-options")
 			}
 			ctx, cancel := context.WithCancel(context.Background())
-			if st.PreCancel {
+			if st.PreCancel && st.Deadline {
+				ctx, cancel = context.WithDeadline(context.Background(), time.Unix(1, 0)) // long past: no timer involved
+				res.Class("acquire-with-expired-deadline")
+			} else if st.PreCancel {
 				cancel()
 				res.Class("pre-cancelled-acquire")
 			}
@@ -619,6 +692,9 @@ type CaseStress struct {
 	NCtx    int          `json:"nctx"`
 	Cancels []int        `json:"cancels"` // order in which the canceller cancels contexts
 	Gap     int          `json:"gap"`     // yields between cancellations
+	// Repeat > 1: every worker runs its program that many times (a hammer: long loops on few keys); a cancellable
+	// operation then gets a context of its own that a helper cancels a few scheduler yields later
+	Repeat int `json:"repeat,omitempty"`
 }
 
 func GenStress(t *rapid.T) CaseStress {
@@ -645,6 +721,9 @@ func GenStress(t *rapid.T) CaseStress {
 	}
 	c.Cancels = rapid.Permutation(seq(c.NCtx)).Draw(t, "cancelorder")
 	c.Gap = rapid.IntRange(0, 20).Draw(t, "gap")
+	if rapid.IntRange(0, 7).Draw(t, "hammer") == 0 {
+		c.Repeat = rapid.SampledFrom([]int{50, 200, 500}).Draw(t, "repeat")
+	}
 	return c
 }
 
@@ -695,60 +774,75 @@ func ExecStress(c CaseStress) *vkit.Result {
 		g, prog := g, prog
 		sched.Go(fmt.Sprintf("worker-%d", g), func() {
 			<-start
-			for i, op := range prog {
-				if op.Key < 0 || op.Key >= len(c.Keys) || op.Ctx >= c.NCtx {
-					continue
-				}
-				ctx := context.Background()
-				if op.Ctx >= 0 {
-					ctx = ctxs[op.Ctx]
-				}
-				key := c.Keys[op.Key].value()
-				var (
-					w   *semap.Weighted
-					err error
-				)
-				if op.Write {
-					w, err = sm.AcquireWrite(ctx, key)
-				} else {
-					w, err = sm.AcquireRead(ctx, key)
-				}
-				if err != nil {
-					failed.Add(1)
-					if op.Ctx < 0 {
-						report("worker %d op %d: acquire with a background context failed: %v", g, i, err)
-					} else if ctx.Err() == nil {
-						report("worker %d op %d: acquire failed with %v although its context is not cancelled", g, i, err)
+			for rep := 0; rep < max(1, min(c.Repeat, 5000)); rep++ {
+				for i, op := range prog {
+					if op.Key < 0 || op.Key >= len(c.Keys) || op.Ctx >= c.NCtx {
+						continue
 					}
-					continue
-				}
-				acquired.Add(1)
-				mon := &mons[op.Key]
-				if op.Write {
-					ws := mon.writers.Add(1)
-					rs := mon.readers.Load()
-					if ws != 1 || rs != 0 {
-						report("worker %d op %d: writer inside key %d together with %d other writers and %d readers", g, i, op.Key, ws-1, rs)
+					ctx := context.Background()
+					if op.Ctx >= 0 {
+						ctx = ctxs[op.Ctx]
+						if c.Repeat > 1 {
+							var cancel context.CancelFunc
+							ctx, cancel = context.WithCancel(context.Background())
+							go func(y int) {
+								for ; y >= 0; y-- {
+									runtime.Gosched()
+								}
+								cancel()
+							}(op.Hold + rep%3)
+						}
 					}
-				} else {
-					rs := mon.readers.Add(1)
-					ws := mon.writers.Load()
-					if ws != 0 || int(rs) > c.RW {
-						report("worker %d op %d: reader inside key %d with %d writers and %d readers (rwRatio %d)", g, i, op.Key, ws, rs, c.RW)
+					key := c.Keys[op.Key].value()
+					var (
+						w   *semap.Weighted
+						err error
+					)
+					if op.Write {
+						w, err = sm.AcquireWrite(ctx, key)
+					} else {
+						w, err = sm.AcquireRead(ctx, key)
 					}
-				}
-				for h := 0; h < op.Hold; h++ {
-					runtime.Gosched()
-				}
-				if op.Write {
-					mon.writers.Add(-1)
-					sm.ReleaseWrite(key, w)
-				} else {
-					mon.readers.Add(-1)
-					sm.ReleaseRead(key, w)
+					if err != nil {
+						failed.Add(1)
+						if op.Ctx < 0 {
+							report("worker %d op %d: acquire with a background context failed: %v", g, i, err)
+						} else if ctx.Err() == nil {
+							report("worker %d op %d: acquire failed with %v although its context is not cancelled", g, i, err)
+						}
+						continue
+					}
+					acquired.Add(1)
+					mon := &mons[op.Key]
+					if op.Write {
+						ws := mon.writers.Add(1)
+						rs := mon.readers.Load()
+						if ws != 1 || rs != 0 {
+							report("worker %d op %d: writer inside key %d together with %d other writers and %d readers", g, i, op.Key, ws-1, rs)
+						}
+					} else {
+						rs := mon.readers.Add(1)
+						ws := mon.writers.Load()
+						if ws != 0 || int(rs) > c.RW {
+							report("worker %d op %d: reader inside key %d with %d writers and %d readers (rwRatio %d)", g, i, op.Key, ws, rs, c.RW)
+						}
+					}
+					for h := 0; h < op.Hold; h++ {
+						runtime.Gosched()
+					}
+					if op.Write {
+						mon.writers.Add(-1)
+						sm.ReleaseWrite(key, w)
+					} else {
+						mon.readers.Add(-1)
+						sm.ReleaseRead(key, w)
+					}
 				}
 			}
 		})
+	}
+	if c.Repeat > 1 {
+		res.Class("hammer")
 	}
 	sched.Go("canceller", func() {
 		<-start
